@@ -110,6 +110,15 @@ def eval_real(pt, case):
     out["at_match"] = [float(nsf.D2O_sld(f, volume_fraction=v, D2O_fraction=fm, **kw)[0]) for v in (0.0, 0.37, 1.0)]
     # the same compound as a string, with the documented table= keyword and a freshly initialised private
     # table: every atom (labile hydrogen included) comes from that table and the numbers are the public ones
+    out["nat_kw"] = None
+    try:
+        from periodictable.formulas import formula as _f2
+        other = _f2(f.structure, density=f.density * 1.6)
+        nd = f.natural_density
+        out["nat_kw"] = (sld3(nsf.D2O_sld(other, volume_fraction=case["vf"], D2O_fraction=case["d"], natural_density=nd, **kw)),
+                         [float(v) for v in nsf.D2O_match(other, natural_density=nd, **kw)])
+    except Exception as e:  # noqa
+        out["nat_kw"] = "raises %s: %s" % (type(e).__name__, e)
     out["private"] = None
     import zlib
     if zlib.crc32(repr(case["atoms"]).encode()) % 4 == 0:
@@ -145,6 +154,15 @@ def judge(run, pt, orc, case, replies):
     h2o, d2o, hs, ds = out["slds"]
     scale = max(abs(v) for s in out["slds"] for v in s[:2]) + 1e-300
     d, vf = case["d"], case["vf"]
+    if out.get("nat_kw") is not None:
+        pr = out["nat_kw"]
+        if isinstance(pr, str):
+            run.violation("D2O_sld / D2O_match with natural_density= on a Formula object %s" % pr, case, site="natural-density-keyword")
+        elif not (all(tol_close(a, b, scale) for a, b in zip(pr[0][:2], out["sld"][:2]))
+                  and tol_close(pr[1][0], out["match"][0], 1 + abs(out["match"][0]))):
+            run.violation("D2O_sld / D2O_match ignore natural_density= on a Formula object that carries another density: "
+                          "%r / %r vs %r / %r" % (pr[0][:2], pr[1][0], out["sld"][:2], out["match"][0]),
+                          case, site="natural-density-keyword")
     if out.get("private") is not None:
         pr = out["private"]
         if isinstance(pr, str):
@@ -357,6 +375,23 @@ def stage_fasta(run, pt, tl, quick):
             x = nc.parse_outcome(next(rep))
             if isinstance(x, str) or not tol_close(x[0], a, scale):
                 run.disagree("fasta.Molecule.D2Osld", dict(molecule=name, vf=vf, d=d), x, a)
+    # 'aa:' / 'dna:' / 'rna:' strings as compounds: the match point and SLDs of the sequence class of that type
+    for ty, seq in (("dna", "ACGT"), ("rna", "ACGU"), ("aa", "GATTACA"), ("dna", "GATTACA"), ("rna", "GGCAUU"),
+                    ("aa", "MKVLA"), ("dna", "AAATTTCCCGGG")):
+        q = fasta.Sequence("x", seq, type=ty)
+        run.count(key="prefix:%s:%s" % (ty, seq), nontrivial=True, tag="fasta-prefix")
+        try:
+            mt = 100 * float(nsf.D2O_match("%s:%s" % (ty, seq))[0])
+            sl = float(nsf.D2O_sld("%s:%s" % (ty, seq), volume_fraction=1.0, D2O_fraction=0.4)[0])
+        except Exception as e:  # noqa
+            run.violation("D2O_match(%r) raised %s" % ("%s:%s" % (ty, seq), type(e).__name__), dict(molecule=ty + ":" + seq),
+                          site="fasta-prefix")
+            continue
+        if not tol_close(mt, q.D2Omatch, 100 * (1 + abs(q.D2Omatch)), rel=1e-9) or \
+                not close(sl, float(q.D2Osld(volume_fraction=1.0, D2O_fraction=0.4)), rel=1e-9):
+            run.violation("D2O_match / D2O_sld of %r (%.6g %%, %.6g) differ from Sequence(type=%r) (%.6g %%, %.6g)"
+                          % ("%s:%s" % (ty, seq), mt, sl, ty, q.D2Omatch, float(q.D2Osld(volume_fraction=1.0, D2O_fraction=0.4))),
+                          dict(molecule=ty + ":" + seq), site="fasta-prefix")
     # a Molecule built from a caller's Formula, and a second one built from the same Formula with another
     # cell volume: the first molecule still reports the match point and SLDs of its own labile formula
     from periodictable.formulas import formula as _formula
